@@ -127,9 +127,9 @@ theorem allocsLe_decReject {B : Nat} (gmax pver : Nat) (h : gmax ≤ B) : Allocs
       · exact allocsLe_pure _ _
     · intro _; exact allocsLe_pure _ _
 
-theorem allocsLe_decVersion {B : Nat} (gmax pver : Nat) (h : gmax ≤ B) : AllocsLe B (decVersion gmax pver) := by
+theorem allocsLe_decVersion {B : Nat} (pver : Nat) (h : maxUserAgentLen ≤ B) : AllocsLe B (decVersion pver) := by
   unfold decVersion
-  repeat (first | exact allocsLe_getNetAddr _ _ _ | exact allocsLe_getVarBytes gmax h | allocs_step)
+  repeat (first | exact allocsLe_getNetAddr _ _ _ | exact allocsLe_getVarBytes maxUserAgentLen h | allocs_step)
 
 theorem allocsLe_decodeRd_global (gmax pver : Nat) (hg : maxInvPerMsg * invVectSize ≤ gmax) (t : MsgType) :
     AllocsLe gmax (decodeRd gmax pver t) := by
@@ -139,7 +139,9 @@ theorem allocsLe_decodeRd_global (gmax pver : Nat) (hg : maxInvPerMsg * invVectS
   have e4 : maxAddrPerMsg * maxNetAddressPayload pver ≤ 30000 := by
     unfold maxNetAddressPayload; split <;> decide
   cases t <;> simp only [decodeRd]
-  case MsgVersion => exact allocsLe_decVersion gmax pver (Nat.le_refl _)
+  case MsgVersion =>
+    have e5 : maxUserAgentLen = 256 := rfl
+    exact allocsLe_decVersion pver (by omega)
   case MsgAddr => exact allocsLe_decAddr pver (by omega)
   case MsgGetHeaders => exact allocsLe_decLocator _ (by omega)
   case MsgGetBlocks => exact allocsLe_decLocator _ (by omega)
@@ -151,11 +153,11 @@ theorem allocsLe_decodeRd_global (gmax pver : Nat) (hg : maxInvPerMsg * invVectS
   all_goals repeat allocs_step
 
 theorem allocsLe_decodeRd_type (gmax pver : Nat) (t : MsgType) (mpl : Nat)
-    (hm : maxPayloadLength gmax pver t = some mpl) (hv : t ≠ .MsgVersion)
+    (hm : maxPayloadLength gmax pver t = some mpl)
     (ha : t = .MsgAddr → multipleAddressVersion ≤ pver) :
     AllocsLe mpl (decodeRd gmax pver t) := by
   cases t <;> simp only [decodeRd] <;> simp only [maxPayloadLength] at hm
-  case MsgVersion => exact absurd rfl hv
+  case MsgVersion => injection hm with hm; subst hm; exact allocsLe_decVersion pver (by omega)
   case MsgAddr =>
     have := ha rfl
     rw [if_neg (by omega)] at hm
